@@ -573,9 +573,8 @@ func initElkAST() {
 	Int64LiteralNodeClass.AddConstantString("FormatError", Ref(Int64LiteralNodeFormatErrorClass))
 
 	Int32LiteralNodeClass = NewClassWithOptions(ClassWithConstructor(UndefinedConstructor))
-	Int32LiteralNodeClass.IncludeMixin(ExpressionNodeMixin)
+	Int32LiteralNodeClass.IncludeMixin(LiteralPatternNodeMixin)
 	Int32LiteralNodeClass.IncludeMixin(TypeNodeMixin)
-	Int32LiteralNodeClass.IncludeMixin(PatternNodeMixin)
 	ElkASTModule.AddConstantString("Int32LiteralNode", Ref(Int32LiteralNodeClass))
 
 	Int32LiteralNodeFormatErrorClass = NewClassWithOptions(ClassWithSuperclass(ErrorClass))
@@ -682,7 +681,7 @@ func initElkAST() {
 	RegexInterpolationNodeClass = NewClassWithOptions(ClassWithConstructor(UndefinedConstructor))
 	RegexInterpolationNodeClass.IncludeMixin(NodeMixin)
 	RegexInterpolationNodeClass.IncludeMixin(RegexLiteralContentNodeMixin)
-	ElkASTModule.AddConstantString("RegexInterpolationNodeClass", Ref(RegexInterpolationNodeClass))
+	ElkASTModule.AddConstantString("RegexInterpolationNode", Ref(RegexInterpolationNodeClass))
 
 	InterpolatedRegexLiteralNodeClass = NewClassWithOptions(ClassWithConstructor(UndefinedConstructor))
 	InterpolatedRegexLiteralNodeClass.IncludeMixin(LiteralPatternNodeMixin)
@@ -1296,7 +1295,7 @@ func initElkAST() {
 
 	BinaryTypeNodeClass = NewClassWithOptions(ClassWithConstructor(UndefinedConstructor))
 	BinaryTypeNodeClass.IncludeMixin(TypeNodeMixin)
-	ElkASTModule.AddConstantString("BinaryTypeExpressionNode", Ref(BinaryTypeNodeClass))
+	ElkASTModule.AddConstantString("BinaryTypeNode", Ref(BinaryTypeNodeClass))
 
 	NilableTypeNodeClass = NewClassWithOptions(ClassWithConstructor(UndefinedConstructor))
 	NilableTypeNodeClass.IncludeMixin(TypeNodeMixin)
